@@ -128,6 +128,75 @@ func TestC09Options(t *testing.T) {
 	run.Exhaustive(run.Thorough())
 	if run.Shard == 0 {
 		lostAck(run)
+		panickingHooks(run)
+	}
+}
+
+// panickingHooks: a publish hook that panics for some events, with and without a panic handler
+// installed, in every position relative to WithStore. Whatever becomes of such a publish (it may
+// panic out to the publisher): if any handler of it ran, its record was in the store before.
+func panickingHooks(run *vk.Run) {
+	for v := 0; v < 32; v++ {
+		storeFirst, ctxHook, withPH, afterToo, async := v&1 != 0, v&2 != 0, v&4 != 0, v&8 != 0, v&16 != 0
+		mem := ebu.NewMemoryStore()
+		boom := func(e any) {
+			if x, ok := e.(ev); ok && x.ID%2 == 0 {
+				panic("c09: hook panics")
+			}
+		}
+		var opts []ebu.Option
+		if storeFirst {
+			opts = append(opts, ebu.WithStore(mem))
+		}
+		if ctxHook {
+			opts = append(opts, ebu.WithBeforePublishContext(func(_ context.Context, _ reflect.Type, e any) { boom(e) }))
+		} else {
+			opts = append(opts, ebu.WithBeforePublish(func(_ reflect.Type, e any) { boom(e) }))
+		}
+		if afterToo {
+			opts = append(opts, ebu.WithAfterPublish(func(_ reflect.Type, e any) { boom(e) }))
+		}
+		if withPH {
+			opts = append(opts, ebu.WithPanicHandler(func(any, reflect.Type, any) {}))
+		}
+		if !storeFirst {
+			opts = append(opts, ebu.WithStore(mem))
+		}
+		bus := ebu.New(opts...)
+		var unrecorded []int
+		h := func(e ev) {
+			evs, _, _ := mem.Read(context.Background(), ebu.OffsetOldest, 0)
+			for _, x := range evs {
+				var d ev
+				if json.Unmarshal(x.Data, &d) == nil && d.ID == e.ID {
+					return
+				}
+			}
+			unrecorded = append(unrecorded, e.ID)
+		}
+		if async {
+			var mu sync.Mutex
+			ebu.Subscribe(bus, func(e ev) { mu.Lock(); defer mu.Unlock(); h(e) }, ebu.Async())
+		} else {
+			ebu.Subscribe(bus, h)
+		}
+		escaped := 0
+		for id := 1; id <= 6; id++ {
+			func() {
+				defer func() {
+					if recover() != nil {
+						escaped++
+					}
+				}()
+				ebu.Publish(bus, ev{ID: id, S: "hp"})
+			}()
+		}
+		bus.Wait()
+		sig := fmt.Sprintf("panicking-hook storeFirst%v ctx%v ph%v after%v async%v", storeFirst, ctxHook, withPH, afterToo, async)
+		if len(unrecorded) != 0 {
+			run.Violation("record:delivered-without-record-after-hook-panic", fmt.Sprintf("%s: handlers ran for events %v although no record of them was in the store (a before-publish hook had panicked for the even ids; %d publishes panicked out to the publisher)", sig, unrecorded, escaped), map[string]any{"variant": sig})
+		}
+		run.Case(sig, true)
 	}
 }
 
